@@ -1822,8 +1822,12 @@ impl<'input, T: Input> Scanner<'input, T> {
             string.push_str(&leading_break);
             // If we had reached an eof but the last character wasn't an end-of-line, check if the
             // last line was indented at least as the rest of the scalar, then we need to consider
-            // there is a newline.
-            if self.input.next_is_z() && self.mark.col >= indent.max(1) {
+            // there is a newline. A last line made of the indentation only, after a terminated
+            // content line, is not a content line: it only counts as an empty line to keep.
+            if self.input.next_is_z()
+                && self.mark.col >= indent.max(1)
+                && (leading_break.is_empty() || chomping == Chomping::Keep)
+            {
                 string.push('\n');
             }
         }
